@@ -32,8 +32,9 @@
    - the MPSC list is a FIFO of (id, barrier?, waiter tid); tail exchange and link are one step (a popper never waits for
      the enqueuer's link); pop + redirect push to the root queue is one step; the root queue is a counter of how many
      times the lane sits in it plus the set of redirected items, any idle thread may act as a worker;
-   - QoS: the max-qos merge of the wakeup is modelled, the override-only wakeups that change nothing but max_qos /
-     RECEIVED_OVERRIDE are not; reference counts are not modelled;
+   - QoS: the max-qos merge of the asynchronous wakeup is modelled (any dispatch_qos_t), the sync waiters push with
+     qos 0 (what _dispatch_qos_from_pp gives without pthread QoS support), the override-only wakeups that change
+     nothing but max_qos / RECEIVED_OVERRIDE are not modelled; reference counts are not modelled;
    Not modelled (stated in the theorems' scope): suspension / inactive queues (C06), target-queue hierarchies (C03:
    do_targetq is a root queue, so there is no recursion and drains are redirecting), dispatch_async_and_wait,
    workloops, the manager queue, dispatch_apply's extra reservations (C10: they only take available width). *)
@@ -56,7 +57,7 @@ Definition NOT_IN_BARRIER := 18428729675200069631.  (* ~DISPATCH_QUEUE_IN_BARRIE
 Record item := { i_id : Z; i_bar : bool; i_wt : Z }.   (* i_wt: 0 = continuation, else tid of the sync waiter *)
 
 (* where a thread that ran _dispatch_lane_barrier_complete on behalf of its own push_waiter continues *)
-Inductive ret := RIdle | RWait (i : Z) (b : bool) (q : Z).
+Inductive ret := RIdle | RWait (i : Z) (b : bool).
 
 Inductive pc :=
 | Idle
@@ -93,8 +94,8 @@ Inductive pc :=
 | A_probe (q : Z) (fl : Z)
 | A_wake (q : Z) (fl : Z)
 (* slow path of dispatch_sync / dispatch_barrier_sync *)
-| SW_xchg (b : bool) (q : Z)
-| SW_rmw (i : Z) (b : bool) (q : Z)
+| SW_xchg (b : bool)
+| SW_rmw (i : Z) (b : bool)
 | SW_wait (i : Z) (b : bool)
 (* worker that popped the lane from the root queue *)
 | W_lock (floor : Z)
@@ -174,8 +175,7 @@ Definition set_started (s : gst) (v : list Z) : gst :=
 Definition set_finished (s : gst) (v : list Z) : gst :=
   {| st := st s; lst := lst s; rootq := rootq s; rq := rq s; pcs := pcs s; woken := woken s; grant := grant s; lockh := lockh s; bmode := bmode s; dw := dw s; holders := holders s; tokh := tokh s; nextid := nextid s; kinds := kinds s; pushed := pushed s; popped := popped s; started := started s; finished := v |}.
 
-Definition after (k : ret) : pc := match k with RIdle => Idle | RWait i b _ => SW_wait i b end.
-Definition qos_of_ret (k : ret) : Z := match k with RIdle => 0 | RWait _ _ q => q end.
+Definition after (k : ret) : pc := match k with RIdle => Idle | RWait i b => SW_wait i b end.
 Definition kind_of_head (l : list item) : Z :=
   match l with [] => 0 | x :: _ => if i_bar x then 2 else 1 end.
 Definition is_nil {A} (l : list A) : bool := match l with [] => true | _ => false end.
@@ -242,7 +242,7 @@ Definition gstep (s : gst) (t : Z) : option gst :=
       | Commit new _ =>
           let i := nextid s in
           Some (set_pc (new_item (set_holders (set_st s new) (t :: holders s)) false) t (R_call i))
-      | NoCommit _ _ => Some (set_pc s t (SW_xchg false 0))
+      | NoCommit _ _ => Some (set_pc s t (SW_xchg false))
       | _ => None
       end
   | R_call i => Some (set_pc (set_started s (i :: started s)) t (R_incall i))
@@ -265,7 +265,7 @@ Definition gstep (s : gst) (t : Z) : option gst :=
       | Commit new _ =>
           let i := nextid s in
           Some (set_pc (new_item (set_dw (set_bmode (set_lockh (set_st s new) (Some t)) true) W) true) t (B_call i))
-      | NoCommit _ _ => Some (set_pc s t (SW_xchg true 0))
+      | NoCommit _ _ => Some (set_pc s t (SW_xchg true))
       | _ => None
       end
   | B_call i => Some (set_pc (set_started s (i :: started s)) t (B_incall i))
@@ -278,7 +278,7 @@ Definition gstep (s : gst) (t : Z) : option gst :=
                                     else DN_and k
                         end))
   | BC_class k enq =>
-      match class_barrier_complete_loop 0 (qos_of_ret k) 0 (if enq =? 0 then 0 else 1) (IN_BARRIER + W * INTERVAL) (st s) enq with
+      match class_barrier_complete_loop 0 0 0 (if enq =? 0 then 0 else 1) (IN_BARRIER + W * INTERVAL) (st s) enq with
       | Commit new _ =>
           let s1 := set_dw (set_bmode (set_lockh (set_st s new) None) false) 0 in
           if negb (enq =? 0) && changed (st s) new enq
@@ -359,23 +359,25 @@ Definition gstep (s : gst) (t : Z) : option gst :=
       Some (set_pc (push_item s b 0) t (if is_nil (lst s) then A_probe q 3 else if ovr then A_probe q 1 else Idle))
   | A_probe q fl => Some (set_pc s t (if is_nil (lst s) then Idle else A_wake q fl))
   | A_wake q fl =>
-      match wakeup_loop 0 q fl 1 (st s) ENQUEUED with
-      | Commit new _ =>
-          if changed (st s) new ENQUEUED
-          then Some (set_pc (set_tokh (set_st s new) (Some t)) t (X_rootpush RIdle))
-          else Some (set_pc (set_st s new) t Idle)
-      | NoCommit _ _ => Some (set_pc s t Idle)
-      | _ => None
-      end
+      if (0 <=? q) && (q <? 8) then   (* dispatch_qos_t values; checked when the call began *)
+        match wakeup_loop 0 q fl 1 (st s) ENQUEUED with
+        | Commit new _ =>
+            if changed (st s) new ENQUEUED
+            then Some (set_pc (set_tokh (set_st s new) (Some t)) t (X_rootpush RIdle))
+            else Some (set_pc (set_st s new) t Idle)
+        | NoCommit _ _ => Some (set_pc s t Idle)
+        | _ => None
+        end
+      else None
   (* ---------------- slow path of the sync calls *)
-  | SW_xchg b q =>
-      Some (set_pc (push_item s b t) t (if is_nil (lst s) then SW_rmw (nextid s) b q else SW_wait (nextid s) b))
-  | SW_rmw i b q =>
-      match push_waiter_loop 0 0 q (st s) (u64 (u64 (s32 (W - 1)) * INTERVAL))
+  | SW_xchg b =>
+      Some (set_pc (push_item s b t) t (if is_nil (lst s) then SW_rmw (nextid s) b else SW_wait (nextid s) b))
+  | SW_rmw i b =>
+      match push_waiter_loop 0 0 0 (st s) (u64 (u64 (s32 (W - 1)) * INTERVAL))
                              (Z.lor (Z.lor t FULL_BIT) IN_BARRIER) with
       | Commit new _ =>
           if changed (st s) new IN_BARRIER
-          then Some (set_pc (set_dw (set_bmode (set_lockh (set_st s new) (Some t)) true) W) t (BC_tail (RWait i b q)))
+          then Some (set_pc (set_dw (set_bmode (set_lockh (set_st s new) (Some t)) true) W) t (BC_tail (RWait i b)))
           else Some (set_pc (set_st s new) t (SW_wait i b))
       | _ => None
       end
